@@ -173,6 +173,116 @@ async fn recv_cancel_case(rep: &mut Report, rng: &mut Rng, rk: RecvKind, tr: Tra
   Some(pendings)
 }
 
+/// (drain) a deep backlog drained by "poll once, drop if Pending" (what now_or_never / futures::poll! / a hand-written
+/// select does), the drain loop running inside ONE task poll for `burst` receives at a time: every receive future is
+/// dropped at its first Pending, whatever made it Pending (an empty queue, a re-arm, the task's cooperative budget
+/// running out after 128 operations). A message that had already been taken off the queue when the future went
+/// Pending would be lost with it - the stream must stay complete and in order.
+async fn drain_case(rep: &mut Report, rng: &mut Rng, rk: RecvKind, tr: Transport, multi: bool, total: u32, burst: usize) {
+  let ctx = util::new_ctx();
+  let (rt, st) = match rk {
+    RecvKind::Pull => (SocketType::Pull, SocketType::Push),
+    RecvKind::Sub => (SocketType::Sub, SocketType::Pub),
+    RecvKind::Dealer => (SocketType::Dealer, SocketType::Dealer),
+    RecvKind::Router => (SocketType::Router, SocketType::Dealer),
+  };
+  let Ok(r) = ctx.socket(rt) else { return };
+  if rk == RecvKind::Sub {
+    let _ = r.set_option(opt::SUBSCRIBE, "").await;
+  }
+  util::set_i32(&r, opt::RCVHWM, 4000).await;
+  let Ok(ep) = util::bind_fresh(&r, tr).await else {
+    rep.inconclusive("drain: bind failed".to_string());
+    return;
+  };
+  let Ok(s) = ctx.socket(st) else { return };
+  util::set_i32(&s, opt::SNDHWM, 4000).await;
+  util::set_i32(&s, opt::SNDTIMEO, 3000).await;
+  if s.connect(&ep).await.is_err() {
+    rep.inconclusive("drain: connect failed".to_string());
+    return;
+  }
+  tokio::time::sleep(Duration::from_millis(if tr == Transport::Inproc { 60 } else { 300 })).await;
+  let run = (rng.next() & 0x7FFF_FFFF) as u32;
+  let mut sent = vec![];
+  for seq in 0..total {
+    let lens = if multi { vec![HDR + 3, 20] } else { vec![HDR + 10] };
+    let fr = oracles::build_message(run, 1, seq, u32::MAX, &lens);
+    let ok = s.send_multipart(mk_msgs(&fr, None)).await.is_ok();
+    sent.push(SentMsg { sender: 1, seq, dest: u32::MAX, frame_lens: lens, status: if ok { SendStatus::Accepted } else { SendStatus::Maybe } });
+    // DEALER egress keeps order only when paced (recorded under C01)
+    if st == SocketType::Dealer && seq % 16 == 15 {
+      tokio::time::sleep(Duration::from_millis(2)).await;
+    }
+  }
+  // let the backlog settle in the receiving socket's queue
+  tokio::time::sleep(Duration::from_millis(500)).await;
+  let mut msgs: Vec<Vec<Vec<u8>>> = vec![];
+  let mut partial: Vec<Vec<u8>> = vec![];
+  let mut dropped_pending = 0u64;
+  let mut empty_rounds = 0;
+  let t0 = std::time::Instant::now();
+  while (msgs.len() as u32) < total && empty_rounds < 40 && t0.elapsed() < util::scaled(Duration::from_secs(30)) {
+    let mut got_this_burst = 0;
+    // `burst` poll-once receives without ever yielding to the runtime
+    for _ in 0..burst {
+      if multi {
+        match cancel(r.recv_multipart(), 1).await {
+          CancelOutcome::Completed(Ok(m), _) => {
+            msgs.push(to_vecs(m));
+            got_this_burst += 1;
+          }
+          CancelOutcome::Completed(Err(_), _) => {}
+          CancelOutcome::Cancelled(_) => dropped_pending += 1,
+        }
+      } else {
+        match cancel(r.recv(), 1).await {
+          CancelOutcome::Completed(Ok(f), _) => {
+            // frame-by-frame reading: a message ends at the frame without MORE (a ROUTER yields the identity first)
+            partial.push(f.data().unwrap_or(&[]).to_vec());
+            if !f.is_more() {
+              msgs.push(std::mem::take(&mut partial));
+            }
+            got_this_burst += 1;
+          }
+          CancelOutcome::Completed(Err(_), _) => {}
+          CancelOutcome::Cancelled(_) => dropped_pending += 1,
+        }
+      }
+      if (msgs.len() as u32) >= total {
+        break;
+      }
+    }
+    if got_this_burst == 0 {
+      empty_rounds += 1;
+      tokio::time::sleep(Duration::from_millis(25)).await;
+    } else {
+      empty_rounds = 0;
+      tokio::task::yield_now().await;
+    }
+  }
+  if rk == RecvKind::Router {
+    for m in msgs.iter_mut() {
+      if !m.is_empty() {
+        m.remove(0);
+      }
+    }
+  }
+  let f = oracles::check_receiver(run, &sent, &msgs, None, true);
+  let opname = if multi { "recv_multipart" } else { "recv" };
+  rep.case(&("drain", rk, tr, multi, total, burst), true);
+  rep.count("drain_futures_dropped_at_pending", dropped_pending);
+  rep.count("drain_messages_received", msgs.len() as u64);
+  if !f.ok() || !partial.is_empty() {
+    rep.violation(
+      format!("poll_once_drain_corrupts_stream|{:?}|{}", rk, if f.ok() { "dangling_partial_message".to_string() } else { f.kinds().join("+") }),
+      format!("{:?}.{}() over {}: a backlog of {} messages drained with poll-once-and-drop ({} receives per task poll, {} futures dropped at Pending): {} - received {}", rk, opname, tr.name(), total, burst, dropped_pending, f.kinds().join("+"), msgs.len()),
+      json!({"socket": format!("{:?}", rk), "transport": tr.name(), "op": opname, "burst": burst, "findings": f.to_json()}),
+    );
+  }
+  let _ = tokio::time::timeout(Duration::from_secs(12), ctx.term()).await;
+}
+
 #[derive(Clone, Copy, Debug, PartialEq, Eq, Hash)]
 enum SendKind {
   Push,
@@ -692,6 +802,20 @@ fn main() {
             }
           }
         }
+      }
+    }
+  }
+  for rk in [RecvKind::Pull, RecvKind::Sub, RecvKind::Dealer, RecvKind::Router] {
+    for (tr, multi, total, burst) in [(Transport::Tcp, false, 600u32, 1000usize), (Transport::Inproc, true, 400, 300), (Transport::Tcp, true, 300, 50), (Transport::Ipc, false, 600, 1000)] {
+      if tr == Transport::Inproc && rk == RecvKind::Dealer {
+        continue; // DEALER-DEALER is refused over inproc (recorded under C05)
+      }
+      if !args.thorough() && tr == Transport::Ipc && rk != RecvKind::Pull {
+        continue;
+      }
+      idx += 1;
+      if args.mine(idx) {
+        util::guarded(&rt, drain_case(&mut rep, &mut rng, rk, tr, multi, total, burst));
       }
     }
   }
